@@ -395,6 +395,12 @@ Qed.
     the node a chain ends in is never outside the subtree, and going up from the local
     root itself is refused (previous lemma).  *)
 
+(** The guards look at the kind and the flags of a node only (this is what the harness's
+    guard table per (kind, flags) relies on). *)
+Lemma guard_local n m o :
+  nkind n = nkind m -> nfl n = nfl m -> guard n o = guard m o.
+Proof. intros K F. unfold guard, guard_path. rewrite K, F. reflexivity. Qed.
+
 (** ** restrict *)
 
 Lemma restrict_only_adds f n :
